@@ -3,6 +3,7 @@ package props
 import (
 	"bytes"
 	"fmt"
+	"reflect"
 
 	"github.com/brocaar/lorawan"
 )
@@ -210,6 +211,18 @@ func hFrameOps() []HOp {
 				p := f.mk()
 				b, err := p.MarshalText()
 				return []interface{}{b, errS(err)}
+			}},
+			HOp{"encode-with-windowed-slices(" + f.name + ")", func(HCtx) interface{} {
+				// the same value with every byte slice held as a window into a larger
+				// buffer: the encoding is a function of the content, not of the capacity
+				p := f.mk()
+				respliceBytes(reflect.ValueOf(&p))
+				b, err := p.MarshalBinary()
+				problem := ""
+				if err != nil || !bytes.Equal(b, wire) {
+					problem = fmt.Sprintf("with its byte slices held as windows into larger buffers the frame encodes to %x (err %v), otherwise to %x", b, err, wire)
+				}
+				return &hChecked{[]interface{}{b, errS(err)}, problem}
 			}},
 			HOp{"decode(" + f.name + ")", func(HCtx) interface{} {
 				var p lorawan.PHYPayload
